@@ -401,3 +401,34 @@ Proof.
   split; [exact Hl|]. exists S. split; [exact S1|]. split; [|exact S3].
   intros x Hx. destruct (S2 x Hx) as [<- | Hf]; [exact Hin | exact (round_followers_incl _ _ _ _ Hf)].
 Qed.
+
+(* ---- bounded exhaustive checks of the monitor on the model's own traces ------------------------------------ *)
+
+Fixpoint schedules01 (alphabet : list qop) (len : nat) : list (list qop) :=
+  match len with
+  | O => [[]]
+  | S k => [] :: flat_map (fun s => map (fun op => op :: s) alphabet) (schedules01 alphabet k)
+  end.
+
+Definition f1_r3 : record := Rec (TUser 3) 1 3 33 1 false 1.
+(* failover alphabet, 3 voters, quorum 2: commits by leader 1 (one on the bare quorum {1,2}), nodes 1
+   and 3 going down / coming back, the next authority installed on node 2, a commit by node 2 *)
+Definition c01_alphabet (with_outages : bool) : list qop :=
+  [ OCommit 1 (1, 1, 1) (TUser 1) [f1_r1] false (Flt [] [3] None);
+    OCommit 1 (1, 1, 1) (TUser 2) [f1_r2] false no_faults;
+    OInstall 2 (1, 2, 2) false 2 no_faults;
+    OCommit 2 (1, 2, 2) (TUser 3) [f1_r3] false no_faults;
+    ORestart 2 ] ++
+  (if with_outages then [ODown 1; OUp 1; ODown 3; OUp 3] else []).
+
+Definition c01_codes_in (allowed : list N) (alphabet : list qop) (len : nat) : bool :=
+  forallb (fun s => existsb (N.eqb (C01_monitor (model_case f1_cfg (OInstall 1 (1, 1, 1) false 2 no_faults :: s)))) allowed)
+          (schedules01 alphabet len).
+
+(* every voter answers every probe (no outages): all acknowledged entries survive, monitor 0 *)
+Lemma c01_bounded_all_answer : c01_codes_in [0] (c01_alphabet false) 5 = true.
+Proof. vm_compute. reflexivity. Qed.
+
+(* with outages: only 0 or the known-finding code 2, never 1 *)
+Lemma c01_bounded_with_outages : c01_codes_in [0; 2] (c01_alphabet true) 4 = true.
+Proof. vm_compute. reflexivity. Qed.
